@@ -367,7 +367,8 @@ impl<'a> Gen<'a> {
             let n = self.model.n;
             let mut vars: Vec<u8> = (0..n as u8).collect();
             self.rng.shuffle(&mut vars);
-            let k = self.rng.range(1, n.min(3) as u64) as usize;
+            // now and then the empty substitution (identity)
+            let k = if self.rng.chance(1, 10) { 0 } else { self.rng.range(1, n.min(3) as u64) as usize };
             let pairs: Vec<(u8, Reg)> = vars[..k].iter().map(|&v| (v, *self.rng.pick(&live))).collect();
             self.push(Instr::SubstNew { s, pairs });
         } else if self.rng.chance(1, 10) {
